@@ -58,7 +58,9 @@ Inductive sel :=
 | SInline (id : nat) (cond : option nat) (dirs : list dir) (sels : list sel)
 | SFrag (id : nat) (fname : nat) (dirs : list dir).
 
-Record fragment := mkFrag { fr_cond : option nat; fr_sels : list sel }.
+(* fr_dirs: directive uses written on the fragment DEFINITION (none of the directives of these
+   schemas may stand there) *)
+Record fragment := mkFrag { fr_cond : option nat; fr_sels : list sel; fr_dirs : list dir }.
 
 Definition TYPENAME : nat := 0.   (* the field name __typename *)
 
@@ -757,4 +759,5 @@ Definition frag_cycle (d : doc) : bool :=
 Definition doc_rejects (S : schema) (d : doc) : bool :=
   existsb (fun o => existsb (sel_rejects S) (op_sels o)) (d_ops d)
   || existsb (fun nf => existsb (sel_rejects S) (fr_sels (snd nf))) (d_frags d)
+  || existsb (fun nf => match fr_dirs (snd nf) with [] => false | _ => true end) (d_frags d)
   || frag_cycle d.
